@@ -1,4 +1,4 @@
-\* cross-snap: 2 snaps, 2 revisions, 7-entry write menu, 2 transactions x (Begin + <=3 operations), <=2 snapshot operations
+\* cross-snap: 2 snaps, 2 revisions, 7-entry write menu, 2 transactions x (Begin + <=2 operations), <=2 snapshot operations
 INIT Init
 NEXT Next
 CONSTANTS
@@ -10,7 +10,7 @@ CONSTANTS
   SetMenu <- MenuSmall
   GetPaths <- GetOne
   ChkPaths <- PathsUpTo3
-  MaxOps = 3
+  MaxOps = 2
   MaxRevOps = 2
 SYMMETRY TxnSym
 VIEW mcview
